@@ -18,9 +18,10 @@ from urllib.parse import urljoin, urlsplit
 
 from vf.monitor import Probes
 
+MIN_RANDOM = 150  # random iterations run per shard whatever the wall-clock budget (floors must not depend on machine load)
 SHARDS = {"quick": 4, "thorough": 16}
 BUDGET = {"quick": 20, "thorough": 240}
-MIN_CASES = {"quick": 10000, "thorough": 200000}
+MIN_CASES = {"quick": 3000, "thorough": 150000}
 EXHAUSTIVE_CLAIM = True
 RULE = ("documents = lists of nodes rendered to str and to its UTF-8 bytes: anchors (tag a/A, href/HREF/hReF, value in double quotes / single quotes / unquoted, ASCII whitespace "
         "before href, 0-2 extra attributes before/after incl. look-alikes data-href, v-href, :href, closed or not), script blocks (6 opening spellings, anchors and '<' in the body), "
@@ -1239,7 +1240,7 @@ def run(ctx):
         # (3) seeded random documents
         n = 0
         lim = 6000 if ctx.tier == "quick" else 10 ** 8
-        while ctx.time_left() and n < lim:
+        while (ctx.time_left() or n < MIN_RANDOM) and n < lim:
             n += 1
             base = rng.choice(BASES)
             hostile_doc = rng.random() < 0.14
